@@ -3,7 +3,7 @@ import SaoVerif.Properties.C08Footprint
 /-!
 # C16 — identifiers are never reused, over every history
 
-`Bnd s` (Proofs/Ids.lean): every stored order and shard has an id below its counter. It is an invariant of **every**
+`Bnd s` (Proofs/Ids.lean): every stored order and shard has an id below its counter, and both stores are sorted by id. It is an invariant of **every**
 operation of the model (`C16_step_keeps_ids_below_counters`), neither counter ever goes down
 (`C16_counters_never_decrease`), and a new order or shard always takes the current counter as its id
 (`C16_appendOrder_fresh`, `C16_appendShard_fresh`). Together, for every history from a state satisfying `Bnd` (the empty
@@ -202,9 +202,9 @@ theorem stepC_ext (e : Env) (s : State) (op : Op) (hb : Bnd s) : Ext s (stepC e 
   case genesis =>
     show Ext s (exportImport s)
     have hc := exportImport_cnt s
-    refine ⟨(Bnd_iff _).mpr ⟨?_, ((Bnd_iff s).mp hb).2⟩, Nat.le_of_eq hc.symm, Nat.le_refl _⟩
+    refine ⟨Bnd_mk ?_ (Bnd_ids hb).2 (Bnd_sorted hb).1 (Bnd_sorted hb).2, Nat.le_of_eq hc.symm, Nat.le_refl _⟩
     intro x hx
-    rw [hc]; exact ((Bnd_iff s).mp hb).1 x hx
+    rw [hc]; exact (Bnd_ids hb).1 x hx
   case unmodelled => exact Ext.refl hb
   case sim => exact Ext.refl hb
 
@@ -254,18 +254,24 @@ theorem C16_ids_never_reused (e : Env) (y : Sys) (ops1 ops2 : List Op) (hb : Bnd
     (∀ x ∈ (runOps e (runOps e y ops1) ops2).st.shards, x.id < (runOps e (runOps e y ops1) ops2).st.shardCount) := by
   have h1 := C16_ids_over_histories e y ops1 hb
   have h2 := C16_ids_over_histories e (runOps e y ops1) ops2 h1.1
-  have b1 := (Bnd_iff _).mp h1.1
-  have b2 := (Bnd_iff _).mp h2.1
+  have b1 := Bnd_ids h1.1
+  have b2 := Bnd_ids h2.1
   refine ⟨fun o ho => ?_, fun x hx => ?_, b2.1, b2.2⟩
   · have := b1.1 o ho; have := h2.2.1; omega
   · have := b1.2 x hx; have := h2.2.2; omega
 
+/-- **C16**: after every history no two orders share an id and no two shards share an id (both stores stay sorted by id) -/
+theorem C16_no_two_records_share_an_id (e : Env) (y : Sys) (ops : List Op) (hb : Bnd y.st) :
+    ((runOps e y ops).st.orders.map (·.id)).Nodup ∧ ((runOps e y ops).st.shards.map (·.id)).Nodup := by
+  have h := Bnd_sorted (C16_ids_over_histories e y ops hb).1
+  exact ⟨List.Pairwise.imp (fun hlt => Nat.ne_of_lt hlt) h.1, List.Pairwise.imp (fun hlt => Nat.ne_of_lt hlt) h.2⟩
+
 /-- the invariant is not vacuous: the empty state satisfies it, and so does a state holding records -/
 example : Bnd { (default : State) with orders := [], shards := [] } :=
-  (Bnd_iff _).mpr ⟨fun x hx => (by cases hx), fun x hx => (by cases hx)⟩
+  Bnd_mk (fun x hx => (by cases hx)) (fun x hx => (by cases hx)) List.Pairwise.nil List.Pairwise.nil
 
 example : Bnd { (default : State) with orders := [{ (default : Order) with id := 3 }], orderCount := some 4,
                                         shards := [{ (default : Shard) with id := 6 }], shardCount := 9 } :=
-  (Bnd_iff _).mpr ⟨(by intro x hx; simp at hx; subst hx; decide), (by intro x hx; simp at hx; subst hx; decide)⟩
+  Bnd_mk (by intro x hx; simp at hx; subst hx; decide) (by intro x hx; simp at hx; subst hx; decide) (by simp) (by simp)
 
 end SaoVerif
